@@ -17,6 +17,7 @@
 #include <xmmintrin.h>
 
 #include "atomic_wrapper.h"
+#include "verif_hooks.h"
 
 namespace yakushima {
 
@@ -200,6 +201,7 @@ public:
         for (;;) {
             desired = expected;
             desired.inc_vinsert_delete();
+            YK_VP(YK_RMW, YK_C_TREE, &body_);
             if (body_.compare_exchange_weak(expected, desired,
                                             std::memory_order_acq_rel,
                                             std::memory_order_acquire)) {
@@ -214,6 +216,7 @@ public:
         for (;;) {
             desired = expected;
             desired.set_border(tf);
+            YK_VP(YK_RMW, YK_C_TREE, &body_);
             if (body_.compare_exchange_weak(expected, desired,
                                             std::memory_order_acq_rel,
                                             std::memory_order_acquire)) {
@@ -228,6 +231,7 @@ public:
         for (;;) {
             desired = expected;
             desired.set_deleted(tf);
+            YK_VP(YK_RMW, YK_C_TREE, &body_);
             if (body_.compare_exchange_weak(expected, desired,
                                             std::memory_order_acq_rel,
                                             std::memory_order_acquire)) {
@@ -242,6 +246,7 @@ public:
         for (;;) {
             desired = expected;
             desired.set_inserting_deleting(tf);
+            YK_VP(YK_RMW, YK_C_TREE, &body_);
             if (body_.compare_exchange_weak(expected, desired,
                                             std::memory_order_acq_rel,
                                             std::memory_order_acquire)) {
@@ -256,6 +261,7 @@ public:
         for (;;) {
             desired = expected;
             desired.set_root(tf);
+            YK_VP(YK_RMW, YK_C_TREE, &body_);
             if (body_.compare_exchange_weak(expected, desired,
                                             std::memory_order_acq_rel,
                                             std::memory_order_acquire)) {
@@ -270,6 +276,7 @@ public:
         for (;;) {
             desired = expected;
             desired.set_splitting(tf);
+            YK_VP(YK_RMW, YK_C_TREE, &body_);
             if (body_.compare_exchange_weak(expected, desired,
                                             std::memory_order_acq_rel,
                                             std::memory_order_acquire)) {
@@ -294,12 +301,14 @@ public:
             for (size_t i = 1;; ++i) {
                 expected = get_body();
                 if (expected.get_locked()) {
+                    YK_WAIT(YK_W_SPIN, &body_);
                     if (i >= 10) { break; }
                     _mm_pause();
                     continue;
                 }
                 desired = expected;
                 desired.set_locked(true);
+                YK_VP(YK_RMW, YK_C_TREE, &body_);
                 if (body_.compare_exchange_weak(expected, desired,
                                                 std::memory_order_acq_rel,
                                                 std::memory_order_acquire)) {
@@ -311,6 +320,7 @@ public:
     }
 
     [[nodiscard]] node_version64_body get_body() const {
+        YK_VP(YK_LOAD, YK_C_TREE, &body_);
         return body_.load(std::memory_order_acquire);
     }
 
@@ -335,6 +345,7 @@ public:
                 !sv.get_splitting()) {
                 return sv;
             }
+            YK_WAIT(YK_W_SPIN, &body_);
             _mm_pause();
         }
     }
@@ -354,6 +365,7 @@ public:
     void init() { set_body(node_version64_body()); }
 
     void set_body(const node_version64_body newv) {
+        YK_VP(YK_STORE, YK_C_TREE, &body_);
         body_.store(newv, std::memory_order_release);
     }
 
@@ -375,6 +387,7 @@ public:
                 desired.set_splitting(false);
             }
             desired.set_locked(false);
+            YK_VP(YK_RMW, YK_C_TREE, &body_);
             if (body_.compare_exchange_weak(expected, desired,
                                             std::memory_order_acq_rel,
                                             std::memory_order_acquire)) {
